@@ -596,3 +596,11 @@ def check(ctx):
     check_dir_mtime(ctx)
     check_reapply_and_reset(ctx)
     check_pair(ctx)
+    # C10.FIND: a policy file created after start-up is found (= C09.FIND)
+    from . import c09
+    nf, no = len(ctx.findings), len(ctx.obligations)
+    c09.check_find(ctx)
+    for fd in ctx.findings[nf:]:
+        fd.rule = 'C10.FIND(' + fd.rule + ')'
+    for o in ctx.obligations[no:]:
+        o['rule'] = 'C10.FIND(' + o['rule'] + ')'
